@@ -54,6 +54,20 @@ def has_location(msg, files):
     return False
 
 
+_retrying = [False]
+REFERENCE_LOOP_SECONDS = 0.025  # CPU time of _reference_loop() on the machine the budgets were chosen on
+
+
+def _reference_loop():
+    import time
+
+    t = time.process_time()
+    x = 0
+    for i in range(300000):
+        x += i * i
+    return time.process_time() - t
+
+
 def parse_outcome(src, filename="f.c", files=("f.c",), parser=None, cpu_seconds=None):
     """Returns ('ast', FileAST) | ('perr', message) | ('bad', sig, detail).
 
@@ -77,6 +91,20 @@ def parse_outcome(src, filename="f.c", files=("f.c",), parser=None, cpu_seconds=
     except RecursionError:
         return ("bad", "exc:RecursionError", "RecursionError")
     except HangDetected:
+        # a CPU-time alarm is a hint: once, on an oversubscribed VM, a thread was
+        # charged 300 times the time its work takes (DESIGN 11.13).  The verdict
+        # needs a second attempt with three times the budget, scaled by how slow
+        # a fixed reference loop runs right now.
+        if not _retrying[0]:
+            factor = max(1.0, _reference_loop() / REFERENCE_LOOP_SECONDS)
+            _retrying[0] = True
+            try:
+                again = parse_outcome(src, filename, files, parser=parser, cpu_seconds=min(3 * cpu_seconds * factor, 1800))
+            finally:
+                _retrying[0] = False
+            if not (again[0] == "bad" and again[1] == "hang"):
+                return again
+            return ("bad", "hang", "CPU-time alarm fired twice (%ss, then %.0fs): parse did not terminate" % (cpu_seconds, min(3 * cpu_seconds * factor, 1800)))
         return ("bad", "hang", "CPU-time alarm (%ss) fired: parse did not terminate" % cpu_seconds)
     except Exception as e:  # noqa: BLE001 - this is the oracle
         return ("bad", "exc:" + type(e).__name__, "%s: %s" % (type(e).__name__, str(e)[:200]))
